@@ -2,7 +2,7 @@
    argument tokens in, an outcome and result tokens out.  All calls into the
    models are made here, in Gallina; the hand-written OCaml only tokenises. *)
 From Coq Require Import String Ascii.
-From Dryoc Require Import Lib.Outcome Impl.Blake2b Impl.Kdf Impl.Poly1305 Impl.Hashes Impl.SecretBox Impl.SecretStream Impl.Scalarmult Impl.PwhashStr Impl.Serde Impl.Rng Impl.Sign Impl.Protected.
+From Dryoc Require Import Lib.Outcome Impl.Blake2b Impl.Kdf Impl.Poly1305 Impl.Hashes Impl.SecretBox Impl.SecretStream Impl.Scalarmult Impl.PwhashStr Impl.Serde Impl.Rng Impl.Sign Impl.Protected Impl.TypeState.
 Open Scope Z_scope.
 
 Inductive tok :=
@@ -233,6 +233,16 @@ Definition dispatch (op : string) (args : list tok) : option (outcome (list tok)
         | Err => Some (Ok [TL [TI 1]])
         | Panic => Some (Ok [TL [TI 2]])
         end
+    | _ => None end
+  else if String.eqb op "typestate.cell" then
+    match args with
+    | [TI c; TI pm; TI lm; TI o] => Some (Ok [TI (if TypeState.resolves c pm lm (TypeState.trait_of (TypeState.op_of_code o)) then 1 else 0)])
+    | _ => None end
+  else if String.eqb op "typestate.stream" then
+    match args with
+    | [TI mode; TI m] =>
+        let meth := if m =? 0 then SM_push_to_vec else if m =? 1 then SM_pull_to_vec else SM_rekey in
+        Some (Ok [TI (if existsb (fun p : Z * Z => ((fst p =? mode) || (fst p =? 9)) && (snd p =? meth)) stream_methods then 1 else 0)])
     | _ => None end
   else if String.eqb op "stream.init" then
     match args with
